@@ -236,6 +236,15 @@ def sort_cases(chk, sc):
                     i += 1
                     seq, w, d, o = pick(fn, i)
                     cases.append(mk_case(0, fn, seq, w, d, o, a, pat="tlc-enumerated"))
+    # --- fixed boundary inputs: integers whose difference exceeds the fixnum range, ties between exact and inexact keys
+    for seq in (LIST, VEC):
+        for o in ("lt", "gt"):
+            for fn in ("sort", "sort!", "list-stable-sort" if seq == LIST else "vector-stable-sort"):
+                cases.append(mk_case(0, fn, seq, "bare", "big", o, [14, 3, 8, 4, 13, 5, 15, 2], pat="fixnum-boundary"))
+                cases.append(mk_case(0, fn, seq, "bare", "mixed", o, [2, 2, 0, 2, 1, 2, 2, 1], pat="exact-inexact-ties"))
+                cases.append(mk_case(0, fn, seq, "bare", "flo", o, [1, 1, 0, 1, 1], pat="exact-inexact-ties"))
+                cases.append(mk_case(0, fn, seq, "clo", "fix", o, [1, 0], pat="two-elements"))
+                cases.append(mk_case(0, fn, seq, "clo", "fix", o, [2, 1, 0], pat="three-elements"))
     # --- seeded adversarial inputs
     lens_small = [0, 1, 2, 3, 4, 5, 6, 7, 8, 9, 12, 15, 16, 17, 24, 31, 32, 33, 48, 63, 64, 65, 100, 127, 128, 129, 199]
     lens_big = [255, 256, 257, 500, 511, 512, 513, 1000, 1023, 1024, 1025, 1999, 2000]
@@ -337,14 +346,26 @@ def sorting(chk, sc, build):
                 continue
             tabs = [e for e in evs if e.get("e") == "Table" and e["dom"] == c["dom"] and e["ord"] == c["ord"]]
             rejs.setdefault(sort_key(c, rejset[i]), []).append((len(c["a"]) + len(c["b"]), c, ev, rejset[i], tabs))
+    smallest = {key: sorted(rejs[key], key=lambda t: (t[0], t[1]["id"]))[0] for key in rejs}
+    if smallest:
+        # re-validate the smallest rejected call of every kind once more, all in one trace
+        evs1, pos, seen_tabs = [], {}, set()
+        for key in sorted(smallest):
+            n, c, ev, why, tabs = smallest[key]
+            for tb in tabs:
+                if (tb["dom"], tb["ord"]) not in seen_tabs:
+                    seen_tabs.add((tb["dom"], tb["ord"]))
+                    evs1.append(tb)
+            evs1.append(ev)
+            pos[len(evs1)] = key
+        one = sc.file("sortone.ndjson")
+        vlib.write_ndjson(one, evs1 + [{"e": "End"}])
+        again = {pos[i] for i, why in trace_verdict(validate_sort(sc, one, to=600), 0, "SortedTrace re-validation") if i in pos}
+        if again != set(smallest):
+            raise Broken("calls rejected in the batch but accepted when validated again: %s" % sorted(set(smallest) - again))
     for key in sorted(rejs):
         lst = sorted(rejs[key], key=lambda t: (t[0], t[1]["id"]))
         n, c, ev, why, tabs = lst[0]
-        # re-validate the smallest rejected call of this kind alone: isolates it and rules out a tool hiccup
-        one = sc.file("sortone_%s.ndjson" % fname(key))
-        vlib.write_ndjson(one, tabs + [ev, {"e": "End"}])
-        if not trace_verdict(validate_sort(sc, one, to=300), 0, "SortedTrace single case"):
-            raise Broken("call rejected in the batch but accepted alone: %s" % json.dumps(c)[:300])
         chk.report(key, "%s: %s (%d rejected calls of this kind; smallest: %s of %s keys, %s, ordering %s): %s" %
                    (c["fn"], why, len(lst), c["seq"], c["dom"], c["wrap"], c["ord"],
                     json.dumps({"a": ev["a"], "b": ev["b"], "out": ev["out"], "res": ev["res"]}) if n <= 12 else "%d elements" % n),
@@ -373,15 +394,33 @@ def adt_events(trace):
     return evs, hists
 
 
+# operations that share their implementation are reported under one family name (report key only)
+FAMILY = {
+    "bag": {"=?": "order", "<?": "order", ">?": "order", "<=?": "order", ">=?": "order"},
+    "map": {"<?": "proper-order", ">?": "proper-order", "range=": "split", "range<": "split", "range<=": "split", "range>": "split",
+            "range>=": "split", "split": "split", "catenate": "split"},
+    "deque": {"take": "take-drop", "take-right": "take-drop", "drop": "take-drop", "drop-right": "take-drop", "split-at": "take-drop"},
+    "queue": {"set-list!": "set-list", "map!": "set-list", "unfold+": "set-list", "unfold-right+": "set-list"},
+    "iset": {"intersection": "intersection-difference", "difference": "intersection-difference"},
+}
+
+
 def adt_key(kind, op, why):
-    return "%s:clobber" % kind if why == "clobber" else "%s:%s:%s" % (kind, op, why)
+    """clobber = an operation changed an OLDER live version (one key per library: any operation may be the one that trips
+    over shared structure); otherwise library:operation-family:what-was-wrong (obs / val / probe / error).
+    The linear-update variant of an operation shares the key of the plain one."""
+    if why == "clobber":
+        return "%s:clobber" % kind
+    base = op[:-1] if op.endswith("!") and op[:-1] and kind != "queue" else op
+    fam = FAMILY.get(kind, {}).get(op, FAMILY.get(kind, {}).get(base, base))
+    return "%s:%s:%s" % (kind, fam, why)
 
 
 def adt_plan(chk, kind):
     """(number of histories, depth) per generation run"""
     if chk.thorough:
         return [(1200, 8), (600, 16), (200, 50), (40, 200)]
-    return [(160, 8), (80, 16), (24, 50), (5, 200)]
+    return [(140, 8), (60, 16), (16, 50), (3, 200)]
 
 
 def dbg(*a):
@@ -507,16 +546,23 @@ def containers(chk, sc, build):
         classes |= res["classes"]
         for smp in res["samples"]:
             chk.sample(smp, limit=8)
-        def reval(key):
-            c = res["rejs"][key]
-            # re-validate the shortest rejected history alone (isolation + guards against a tool hiccup)
-            one = sc.file("adtone_%s.ndjson" % fname(key))
-            vlib.write_ndjson(one, [{"e": "Reset", "off": c["offset"]}] + c["events"] + [{"e": "End"}])
-            rej1 = trace_verdict_adt(adt_validate(sc, c["kind"], one, to=300), "AdtTrace single history")
-            if not any(op == c["op"] and why == c["why"] for _, op, why in rej1):
-                raise Broken("history rejected in the batch but accepted alone: %s" % key)
-            return key
-        for key in vlib.parallel(reval, sorted(res["rejs"]), jobs=8):
+        # re-validate the shortest rejected history of every kind once more, all in one trace
+        # (isolates them from the batch they came from and guards against a tool hiccup)
+        keys = sorted(res["rejs"])
+        if keys:
+            evs1, pos = [], {}
+            for key in keys:
+                c = res["rejs"][key]
+                evs1.append({"e": "Reset", "off": c["offset"]})
+                evs1 += c["events"]
+                pos[len(evs1)] = key
+            one = sc.file("adtone_%s.ndjson" % res["kind"])
+            vlib.write_ndjson(one, evs1 + [{"e": "End"}])
+            rej1 = trace_verdict_adt(adt_validate(sc, res["kind"], one, to=600), "AdtTrace re-validation")
+            again = {pos[i] for i, op, why in rej1 if i in pos and (op, why) == (res["rejs"][pos[i]]["op"], res["rejs"][pos[i]]["why"])}
+            if again != set(keys):
+                raise Broken("histories rejected in the batch but accepted when validated again: %s" % sorted(set(keys) - again))
+        for key in keys:
             c = res["rejs"][key]
             last = c["events"][-1]
             chk.report(key, "%s %s: %s (%d rejected operations of this kind; shortest history %d operations; last: %s -> obs %s new %s changed %s%s)" %
@@ -535,6 +581,41 @@ def containers(chk, sc, build):
     return total_h, total_acc, len(classes), kinds
 
 
+def binding_selftest(chk, sc, build):
+    """DESIGN 3.5: a corrupted recorded result must be rejected by TLC (sorting and containers)"""
+    c = mk_case(1, "list-stable-sort", LIST, "clo", "fix", "lt", [2, 0, 1, 0, 2])
+    run = run_sort_shard(build, sc, 9001, [c])
+    evs = vlib.read_ndjson(run["trace"])
+    if trace_verdict(validate_sort(sc, run["trace"], to=300), len(evs), "selftest sort"):
+        raise Broken("selftest: the uncorrupted sort trace is rejected")
+    for ev in evs:
+        if ev.get("e") == "Call":
+            ev["out"][0], ev["out"][1] = ev["out"][1], ev["out"][0]          # equal keys swapped: not stable any more
+    t = sc.file("selftest_sort.ndjson")
+    vlib.write_ndjson(t, evs)
+    if not trace_verdict(validate_sort(sc, t, to=300), len(evs), "selftest sort"):
+        raise Broken("selftest: a corrupted sort result was accepted")
+    h = [dict(op="mapping", v=0, w=0, k=0, x=1, ks=[3, 1, 2]), dict(op="delete", v=1, w=0, k=0, x=0, ks=[1]),
+         dict(op="ref", v=1, w=0, k=1, x=0, ks=[]), dict(op="peek", v=1, w=0, k=0, x=0, ks=[])]
+    tr = adt_run(build, sc, "map", 9002, [h])
+    if trace_verdict_adt(adt_validate(sc, "map", tr, to=300), "selftest map"):
+        raise Broken("selftest: the uncorrupted mapping trace is rejected")
+    evs = vlib.read_ndjson(tr)
+    for field, fn in (("obs", lambda e: e["op"]["op"] == "ref"), ("val", lambda e: e["op"]["op"] == "delete")):
+        bad = json.loads(json.dumps(evs))
+        for e in bad:
+            if e.get("e") == "Op" and fn(e["op"] and e):
+                if field == "obs":
+                    e["obs"] = [e["obs"][0] + 1]
+                else:
+                    e["val"] = [e["val"][0][:-1]]
+        t = sc.file("selftest_map_%s.ndjson" % field)
+        vlib.write_ndjson(t, bad)
+        if not trace_verdict_adt(adt_validate(sc, "map", t, to=300), "selftest map"):
+            raise Broken("selftest: a corrupted mapping %s was accepted" % field)
+    chk.cov["binding_selftest"] = "corrupted sort output, mapping observation and mapping version rejected by TLC"
+
+
 def run():
     chk = vlib.Check("C18")
     with vlib.Scratch("c18") as sc:
@@ -543,6 +624,8 @@ def run():
         if os.environ.get("C18_ONLY"):
             jobs = [j for j in jobs if j[0] == os.environ["C18_ONLY"]]
         res = dict(zip([j[0] for j in jobs], vlib.parallel(lambda j: j[1](), jobs, jobs=2)))
+        if chk.thorough or os.environ.get("C18_SELFTEST"):
+            binding_selftest(chk, sc, build)
         if "sort" in res:
             ncases, acc, ncls = res["sort"]
             chk.cov["traces_validated_against_impl"] += acc
@@ -580,7 +663,7 @@ KINDS = {
     "bag": ("{0, 1, 2}", 3, K16, 16, (2, 3)),
     "map": ("{0, 1, 2}", 3, K16, 16, (2, 3)),
     "iset": ("{0, 1, 2, 130}", 3, ISET_KEYS, 16, (2, 3)),
-    "ralist": ("{0, 1, 2}", 3, K16, 16, (3, 4)),
+    "ralist": ("{0, 1, 2}", 3, K16, 16, (3, 3)),
     "queue": ("{0, 1, 2}", 3, K16, 16, (2, 3)),
     "deque": ("{0, 1, 2}", 3, K16, 16, (2, 3)),
     "seq": ("{0, 1, 2}", 3, K16, 16, (2, 3)),
